@@ -1662,9 +1662,10 @@ Proof.
     intros y Hn Hy. unfold s1 in *. rewrite get_upd_other in * by auto. auto.
 Qed.
 
-Lemma sinv_finish s h sig r : SInv s -> batch s = (h, sig) :: r -> SInv (msg_finish s h r).
+Lemma sinv_pop s h sig r : SInv s -> batch s = (h, sig) :: r ->
+  SInv (upd_h (with_batch s r) h h_inc_dispatched).
 Proof.
-  intros [C K] Hb. unfold msg_finish.
+  intros [C K] Hb.
   set (s2 := upd_h (with_batch s r) h h_inc_dispatched).
   assert (Hl : h < length (hs s)) by (apply (s_batchv _ C (h, sig)); rewrite Hb; simpl; auto).
   assert (G : get s2 h = h_inc_dispatched (get s h)) by (unfold s2; rewrite get_upd_same by auto; reflexivity).
@@ -1693,7 +1694,13 @@ Proof.
       rewrite Pe in Z. lia. }
   assert (K2 : SClosing s2).
   { intros x Hx. destruct (Ac x) as ((a&_)&b&_). rewrite a. rewrite b in Hx. auto. }
-  destruct (h_oneshot (get s2 h)); [|split; auto].
+  split; auto.
+Qed.
+
+Lemma sinv_finish s h sig r : SInv s -> batch s = (h, sig) :: r -> SInv (msg_finish s h r).
+Proof.
+  intros I Hb. unfold msg_finish. pose proof (sinv_pop s h sig r I Hb) as [C2 K2].
+  destruct (h_oneshot _); [|split; auto].
   split; [apply score_stop; auto | apply sclosing_stop; auto].
 Qed.
 
@@ -1882,4 +1889,724 @@ Proof.
       * rewrite upd_h_oob by auto. auto.
     + rewrite get_upd_other by auto. auto.
   - intros. apply sinv_snap, sinv_log; auto.
+Qed.
+
+(* invariants S1 (sorted, duplicate-free), S2, S3 for every reachable state *)
+Theorem tree_sorted_nodup fx beh fuel c ops :
+  let s := run fx beh fuel (init c) ops in
+  StronglySorted (fun a b => sig_compare (get s a) a (get s b) b = Lt) (tree s) /\ NoDup (tree s).
+Proof.
+  cbv zeta. destruct (sinv_run fx beh fuel c ops) as [C _]. split.
+  - pose proof (s_sorted _ C) as S. clear C. induction S as [|y t H IH F]; constructor; auto.
+    rewrite Forall_forall in *. intros z Hz. apply cmp_lt. apply F; auto.
+  - eapply sorted_nodup. apply (s_sorted _ C).
+Qed.
+
+Theorem tree_iff_started fx beh fuel c ops h :
+  let s := run fx beh fuel (init c) ops in
+  In h (tree s) <-> h_signum (get s h) <> 0.
+Proof. cbv zeta. destruct (sinv_run fx beh fuel c ops) as [C _]. apply (s_tree _ C). Qed.
+
+Theorem caught_minus_dispatched fx beh fuel c ops h :
+  let s := run fx beh fuel (init c) ops in
+  h < length (hs s) ->
+  h_caught (get s h) = h_dispatched (get s h) + pending s h.
+Proof. cbv zeta. destruct (sinv_run fx beh fuel c ops) as [C _]. apply (s_count _ C). Qed.
+
+(* close_cb only after every signal caught for the handle has left the pipe *)
+Theorem closed_nothing_pending fx beh fuel c ops h :
+  let s := run fx beh fuel (init c) ops in
+  h_closed (get s h) = true ->
+  pending s h = 0 /\ h_closing (get s h) = true /\ h_signum (get s h) = 0 /\ ~ In h (tree s).
+Proof.
+  cbv zeta. intros Hc. destruct (sinv_run fx beh fuel c ops) as [C K].
+  pose proof (s_closed _ C h Hc) as Hcl.
+  repeat split; auto. apply (s_closed0 _ C); auto.
+  rewrite (s_tree _ C). intros N. apply N. auto.
+Qed.
+
+(* ------------------------------------------------------------------ *)
+(* 7. the kernel disposition (S4)                                       *)
+(* ------------------------------------------------------------------ *)
+Definition entry (s : state) (sig y : nat) : Prop := In y (tree s) /\ h_signum (get s y) = sig.
+
+Record DSig (s : state) (sig : nat) : Prop := {
+  d_none : (forall y, ~ entry s sig y) -> disp_of s sig = Default;
+  d_pers : forall y, entry s sig y -> h_oneshot (get s y) = false -> disp_of s sig = Handler false;
+  d_dflt : disp_of s sig = Default -> race s = false -> forall y, entry s sig y -> g_fired (get s y) = true
+}.
+
+Definition DInv (s : state) : Prop := forall sig, sig <> 0 -> DSig s sig.
+
+(* nothing the disposition invariant looks at gets worse *)
+Lemma dsig_frame s s' sig :
+  tree s' = tree s -> disp_of s' sig = disp_of s sig -> (race s' = false -> race s = false) ->
+  (forall y, In y (tree s) -> h_signum (get s' y) = h_signum (get s y) /\
+                               h_oneshot (get s' y) = h_oneshot (get s y) /\
+                               (g_fired (get s y) = true -> g_fired (get s' y) = true)) ->
+  DSig s sig -> DSig s' sig.
+Proof.
+  intros Et Ed Er F [A B C].
+  assert (En : forall y, entry s' sig y <-> entry s sig y).
+  { intros y. unfold entry. rewrite Et. split; intros [a b]; split; auto; destruct (F y a) as (c&_); congruence. }
+  split; rewrite Ed.
+  - intros H. apply A. intros y Hy. apply (H y). apply En; auto.
+  - intros y Hy Hf. apply En in Hy. apply (B y Hy). destruct Hy as [a _]. destruct (F y a) as (_&c&_). congruence.
+  - intros Hd Hr y Hy. apply En in Hy. destruct Hy as [a b]. destruct (F y a) as (_&_&c). apply c.
+    apply C; auto. split; auto.
+Qed.
+
+Lemma dinv_frame s s' :
+  tree s' = tree s -> disp_of s' = disp_of s -> (race s' = false -> race s = false) ->
+  (forall y, In y (tree s) -> h_signum (get s' y) = h_signum (get s y) /\
+                               h_oneshot (get s' y) = h_oneshot (get s y) /\
+                               (g_fired (get s y) = true -> g_fired (get s' y) = true)) ->
+  DInv s -> DInv s'.
+Proof.
+  intros Et Ed Er F D sig Hs. eapply dsig_frame; eauto. rewrite Ed. reflexivity.
+Qed.
+
+Lemma dinv_stop s h : SCore s -> DInv s -> DInv (sig_stop s h).
+Proof.
+  intros C D. destruct (Nat.eq_dec (h_signum (get s h)) 0) as [E0|E0].
+  { rewrite stop_noop; auto. }
+  set (sg := h_signum (get s h)) in *.
+  pose proof (stop_tree s h E0) as Tr.
+  assert (Go : forall y, y <> h -> get (sig_stop s h) y = get s y) by (intros; apply stop_get_other; auto).
+  set (s1 := with_tree s (tree_remove h (tree s))).
+  assert (So1 : StronglySorted (klt s1) (tree s1)).
+  { eapply sorted_ext; [|apply sorted_filter; apply (s_sorted _ C)]. intros; repeat split. }
+  assert (En : forall sig y, entry (sig_stop s h) sig y <-> entry s sig y /\ y <> h).
+  { intros sig y. unfold entry. rewrite Tr, remove_in. split.
+    - intros [[a b] c]. rewrite Go in c by auto. tauto.
+    - intros [[a b] c]. rewrite Go by auto. tauto. }
+  assert (Rc : race (sig_stop s h) = race s) by apply stop_race.
+  (* the disposition after the stop *)
+  assert (Dp : forall sig, disp_of (sig_stop s h) sig =
+           if sig =? sg then
+             match first_handle s1 sg with
+             | None => Default
+             | Some f => if h_oneshot (get s1 f) && negb (h_oneshot (get s h)) then Handler true else disp_of s sg
+             end
+           else disp_of s sig).
+  { intros sig. unfold sig_stop. fold sg. destruct (Nat.eqb_spec sg 0); [congruence|]. fold s1.
+    destruct (first_handle s1 sg) as [f|]; [destruct (_ && _)|]; ssimpl; unfold fupd;
+      destruct (Nat.eqb_spec sig sg); subst; auto. }
+  intros sig Hs. specialize (D sig Hs). destruct D as [A B Cc].
+  destruct (Nat.eqb_spec sig sg) as [->|Hn].
+  2:{ (* another signal: nothing changes *)
+    assert (Ed : disp_of (sig_stop s h) sig = disp_of s sig).
+    { rewrite Dp. destruct (Nat.eqb_spec sig sg); [contradiction|reflexivity]. }
+    assert (En' : forall y, entry (sig_stop s h) sig y <-> entry s sig y).
+    { intros y. rewrite En. split; [tauto|]. intros [a b]. split; [split; auto|]. intros ->. fold sg in b. congruence. }
+    split; rewrite Ed.
+    - intros H. apply A. intros y Hy. apply (H y). apply En'; auto.
+    - intros y Hy Hf. apply En' in Hy. apply (B y Hy). destruct Hy as [a b].
+      rewrite Go in Hf; auto. intros ->. fold sg in b. congruence.
+    - intros Hd Hr y Hy. apply En' in Hy. rewrite Rc in Hr. specialize (Cc Hd Hr y Hy).
+      rewrite Go; auto. intros ->. destruct Hy as [a b]. fold sg in b. congruence. }
+  specialize (Dp sg). rewrite Nat.eqb_refl in Dp.
+  destruct (first_handle s1 sg) as [f|] eqn:Ef.
+  - apply first_handle_some in Ef; auto. destruct Ef as (f1&f2&f3).
+    change (get s1 f) with (get s f) in *. change (tree s1) with (tree_remove h (tree s)) in *.
+    apply remove_in in f1. destruct f1 as [f1 f1'].
+    assert (Ent : entry (sig_stop s h) sg f) by (apply En; split; [split|]; auto).
+    destruct (h_oneshot (get s f) && negb (h_oneshot (get s h))) eqn:Eb.
+    + apply andb_true_iff in Eb. destruct Eb as [Eb1 Eb2].
+      split; rewrite Dp; try discriminate.
+      * intros H. exfalso. apply (H f Ent).
+      * intros y Hy Hf. exfalso. apply En in Hy. destruct Hy as [[a b] c]. rewrite Go in Hf by auto.
+        assert (h_oneshot (get s y) = true); [|congruence].
+        apply (f3 y); auto. apply remove_in. auto.
+    + split; rewrite Dp.
+      * intros H. exfalso. apply (H f Ent).
+      * intros y Hy Hf. apply En in Hy. destruct Hy as [Hy c]. rewrite Go in Hf by auto. eauto.
+      * intros Hd Hr y Hy. apply En in Hy. destruct Hy as [Hy c]. rewrite Go by auto. rewrite Rc in Hr. eauto.
+  - pose proof (first_handle_none s1 sg So1 Ef) as Nn.
+    assert (Ne : forall y, ~ entry (sig_stop s h) sg y).
+    { intros y Hy. apply En in Hy. destruct Hy as [[a b] c]. apply (Nn y); auto.
+      change (tree s1) with (tree_remove h (tree s)). apply remove_in. auto. }
+    split; rewrite Dp; auto.
+    + intros y Hy. exfalso. apply (Ne y Hy).
+    + intros _ _ y Hy. exfalso. apply (Ne y Hy).
+Qed.
+
+Lemma fired_on_spec s sig :
+  fired_oneshot_on s sig = true <->
+  exists y, entry s sig y /\ h_oneshot (get s y) = true /\ g_fired (get s y) = true.
+Proof.
+  unfold fired_oneshot_on, entry. rewrite existsb_exists. split.
+  - intros (y&a&b). apply andb_true_iff in b. destruct b as [b c]. apply andb_true_iff in b. destruct b as [b d].
+    apply Nat.eqb_eq in b. exists y. auto.
+  - intros (y&[a b]&c&d). exists y. split; auto. rewrite c, d, b, Nat.eqb_refl. reflexivity.
+Qed.
+
+Lemma dinv_start fx s h sig os : usable s h = true -> SCore s -> DInv s ->
+  DInv (fst (sig_start fx s h sig os)).
+Proof.
+  intros U C D. apply usable_spec in U. destruct U as [Ul Uc].
+  unfold sig_start.
+  destruct (Nat.eqb_spec sig 0) as [E0|E0]; [exact D|].
+  destruct (Nat.eqb_spec sig (h_signum (get s h))) as [E1|E1]; [exact D|].
+  rewrite stop_if.
+  set (s1 := sig_stop s h).
+  assert (C1 : SCore s1) by (apply score_stop; auto).
+  assert (D1 : DInv s1) by (apply dinv_stop; auto).
+  assert (Z1 : h_signum (get s1 h) = 0) by apply stop_signum.
+  assert (Ni : ~ In h (tree s1)) by (rewrite (s_tree _ C1); intuition).
+  set (need := match first_handle s1 sig with None => true | Some f => negb os && h_oneshot (get s1 f) end).
+  destruct (need && negb (sigok sig)); [exact D1|].
+  set (s2 := if need then set_disp s1 sig (Handler os) else s1).
+  set (s3 := if fired_oneshot_on s2 sig then with_race s2 true else s2).
+  set (flag := if fx then os else h_oneshot (get s3 h) || os).
+  cbn [fst].
+  set (s4 := upd_h s3 h (h_set_started sig flag)).
+  set (sF := with_tree s4 (tree_insert (hs s4) h (tree s4))).
+  assert (H31 : hs s3 = hs s1) by (unfold s3, s2; destruct (fired_oneshot_on _ _), need; reflexivity).
+  assert (T31 : tree s3 = tree s1) by (unfold s3, s2; destruct (fired_oneshot_on _ _), need; reflexivity).
+  assert (L1 : h < length (hs s3)) by (rewrite H31; unfold s1; rewrite stop_len; auto).
+  assert (Gh : get sF h = h_set_started sig flag (get s3 h)) by (unfold sF; gs; apply get_upd_same; auto).
+  assert (Go : forall y, y <> h -> get sF y = get s1 y).
+  { intros y Hy. unfold sF. gs. unfold s4. rewrite get_upd_other by auto. apply get_hs_eq; auto. }
+  assert (TF : forall y, In y (tree sF) <-> y = h \/ In y (tree s1)).
+  { intros y. unfold sF. ssimpl. change (upd h (h_set_started sig flag) (hs s3)) with (hs s4).
+    change (tree s4) with (tree s3). rewrite T31. apply insert_in; auto. }
+  assert (Of : os = true -> flag = true) by (intros ->; unfold flag; destruct fx; auto using orb_true_r).
+  assert (Ff : flag = false -> os = false).
+  { destruct os; auto. intros X. rewrite Of in X; auto. }
+  assert (DF : disp_of sF = disp_of s2) by (unfold sF, s4, s3; destruct (fired_oneshot_on _ _); reflexivity).
+  assert (RF : race sF = false -> race s1 = false /\ fired_oneshot_on s2 sig = false).
+  { unfold sF, s4, s3. destruct (fired_oneshot_on s2 sig); ssimpl; [discriminate|].
+    unfold s2. destruct need; auto. }
+  assert (F2 : fired_oneshot_on s2 sig = false ->
+               forall y, entry s1 sig y -> h_oneshot (get s1 y) = true -> g_fired (get s1 y) = true -> False).
+  { intros X y Hy a b. assert (fired_oneshot_on s2 sig = true); [|congruence].
+    apply fired_on_spec. exists y. unfold s2. destruct need; auto. }
+  intros sig' Hs'. destruct (D1 sig' Hs') as [A B Cc].
+  destruct (Nat.eq_dec sig' sig) as [->|Hn].
+  2:{ assert (En : forall y, entry sF sig' y <-> entry s1 sig' y).
+      { intros y. unfold entry. rewrite TF. split.
+        - intros [[->|a] b]; [rewrite Gh in b; simpl in b; congruence|].
+          rewrite Go in b by congruence. auto.
+        - intros [a b]. split; auto. rewrite Go; auto. congruence. }
+      assert (Ed : disp_of sF sig' = disp_of s1 sig').
+      { rewrite DF. unfold s2. destruct need; auto. ssimpl. unfold fupd.
+        destruct (Nat.eqb_spec sig' sig); [contradiction|reflexivity]. }
+      split; rewrite Ed.
+      - intros H. apply A. intros y Hy. apply (H y). apply En; auto.
+      - intros y Hy Hf. apply En in Hy. apply (B y Hy). rewrite Go in Hf; auto.
+        destruct Hy; congruence.
+      - intros Hd Hr y Hy. apply En in Hy. apply RF in Hr. destruct Hr as [Hr _].
+        rewrite Go by (destruct Hy; congruence). eauto. }
+  assert (Eh : entry sF sig h) by (split; [apply TF; auto | rewrite Gh; reflexivity]).
+  assert (En : forall y, entry sF sig y <-> y = h \/ entry s1 sig y).
+  { intros y. unfold entry. rewrite TF. split.
+    - intros [[->|a] b]; auto. right. split; auto. rewrite Go in b; auto. congruence.
+    - intros [->|[a b]]; [split; [auto | apply (proj2 Eh)]|]. split; auto. rewrite Go; auto. congruence. }
+  destruct (first_handle s1 sig) as [f|] eqn:Ef.
+  - apply first_handle_some in Ef; [|apply (s_sorted _ C1)]. destruct Ef as (f1&f2&f3).
+    assert (Ef1 : entry s1 sig f) by (split; auto).
+    unfold need in *. destruct (negb os && h_oneshot (get s1 f)) eqn:Eb.
+    + (* a persistent watcher arrives, only one-shot ones so far: re-register *)
+      assert (Ed : disp_of sF sig = Handler os).
+      { rewrite DF. unfold s2. ssimpl. unfold fupd. rewrite Nat.eqb_refl. reflexivity. }
+      apply andb_true_iff in Eb. destruct Eb as [Eb _]. apply negb_true_iff in Eb. subst os.
+      split; rewrite Ed; auto; try discriminate.
+      intros H. exfalso. apply (H h Eh).
+    + assert (Ed : disp_of sF sig = disp_of s1 sig) by (rewrite DF; reflexivity).
+      split; rewrite Ed.
+      * intros H. exfalso. apply (H h Eh).
+      * intros y Hy Hf. apply En in Hy. destruct Hy as [->|Hy].
+        -- rewrite Gh in Hf. simpl in Hf. apply Ff in Hf. subst os. simpl in Eb.
+           apply (B f); auto.
+        -- rewrite Go in Hf by (destruct Hy; congruence). eauto.
+      * intros Hd Hr y Hy. apply RF in Hr. destruct Hr as [Hr Hq]. exfalso.
+        (* the first entry is then a fired one-shot watcher: the race flag would be set *)
+        assert (Fo : h_oneshot (get s1 f) = true).
+        { destruct (h_oneshot (get s1 f)) eqn:X; auto. rewrite (B f Ef1 X) in Hd. discriminate. }
+        apply (F2 Hq f); auto.
+  - pose proof (first_handle_none s1 sig (s_sorted _ C1) Ef) as Nn.
+    assert (Ed : disp_of sF sig = Handler os).
+    { rewrite DF. unfold s2, need. ssimpl. unfold fupd. rewrite Nat.eqb_refl. reflexivity. }
+    split; rewrite Ed; try discriminate.
+    + intros H. exfalso. apply (H h Eh).
+    + intros y Hy Hf. apply En in Hy. destruct Hy as [->|[a b]]; [|exfalso; eapply Nn; eauto].
+      rewrite Gh in Hf. simpl in Hf. apply Ff in Hf. congruence.
+Qed.
+
+Lemma fold_write_fired_mono sig ys : forall s y,
+  g_fired (get s y) = true -> g_fired (get (fold_left (write_msg sig) ys s) y) = true.
+Proof.
+  induction ys as [|z ys IH]; intros s y H; simpl; auto. apply IH.
+  unfold write_msg. set (s1 := upd_h s z h_set_fired).
+  assert (A : g_fired (get s1 y) = true).
+  { unfold s1. destruct (Nat.eq_dec z y) as [->|].
+    - destruct (Nat.lt_ge_cases y (length (hs s))); [rewrite get_upd_same by auto; reflexivity | rewrite upd_h_oob by auto; auto].
+    - rewrite get_upd_other by auto; auto. }
+  destruct (_ <? _); auto.
+  destruct (Nat.eq_dec z y) as [->|].
+  - destruct (Nat.lt_ge_cases y (length (hs s1))).
+    + rewrite get_upd_same by (ssimpl; auto). gs. simpl. exact A.
+    + rewrite upd_h_oob by (ssimpl; auto). gs. exact A.
+  - rewrite get_upd_other by auto. gs. exact A.
+Qed.
+
+Lemma fold_write_fired sig ys : forall s y, In y ys -> y < length (hs s) ->
+  g_fired (get (fold_left (write_msg sig) ys s) y) = true.
+Proof.
+  induction ys as [|z ys IH]; intros s y Hy Hl; simpl in *; [contradiction|].
+  destruct Hy as [->|Hy].
+  - apply fold_write_fired_mono. unfold write_msg. set (s1 := upd_h s y h_set_fired).
+    assert (A : g_fired (get s1 y) = true) by (unfold s1; rewrite get_upd_same by auto; reflexivity).
+    destruct (_ <? _); auto.
+    rewrite get_upd_same by (change (length (hs s1) > y); unfold s1; rewrite len_upd_h; auto). gs. simpl. exact A.
+  - apply IH; auto. rewrite write_msg_len. auto.
+Qed.
+
+Lemma dinv_deliver s sig : sig <> 0 -> SCore s -> DInv s -> DInv (fst (deliver s sig)).
+Proof.
+  intros Hs C D. unfold deliver. destruct (disp_of s sig) as [|rh] eqn:Ed; [exact D|]. cbn [fst].
+  unfold handler.
+  set (s1 := if rh then set_disp s sig Default else s).
+  assert (G1 : forall y, get s1 y = get s y) by (intros; unfold s1; destruct rh; reflexivity).
+  assert (T1 : tree s1 = tree s) by (unfold s1; destruct rh; reflexivity).
+  set (sF := fold_left (write_msg sig) (targets s1 sig) s1).
+  destruct (fold_write_misc sig (targets s1 sig) s1) as (_&_&tF&dF&_&rF&_). fold sF in tF, dF, rF.
+  assert (Co : forall y, same_core (get s y) (get sF y)).
+  { intros y. rewrite <- G1. apply fold_write_core. }
+  assert (En : forall sg y, entry sF sg y <-> entry s sg y).
+  { intros sg y. unfold entry. rewrite tF, T1. destruct (Co y) as (_&b&_). rewrite b. tauto. }
+  assert (Fl : forall y, h_oneshot (get sF y) = h_oneshot (get s y)) by (intros y; apply (Co y)).
+  assert (Fm : forall y, g_fired (get s y) = true -> g_fired (get sF y) = true).
+  { intros y H. apply fold_write_fired_mono. rewrite G1. auto. }
+  assert (Rc : race sF = race s) by (rewrite rF; unfold s1; destruct rh; reflexivity).
+  intros sig' Hs'. destruct (D sig' Hs') as [A B Cc].
+  destruct (Nat.eq_dec sig' sig) as [->|Hn].
+  - destruct rh.
+    + (* SA_RESETHAND: back to the default, every entry has been marked *)
+      assert (EdF : disp_of sF sig = Default).
+      { rewrite dF. unfold s1. ssimpl. unfold fupd. rewrite Nat.eqb_refl. reflexivity. }
+      split; rewrite EdF; auto.
+      * intros y Hy Hf. exfalso. apply En in Hy. rewrite Fl in Hf. rewrite (B y Hy Hf) in Ed. discriminate.
+      * intros _ _ y Hy. apply En in Hy. destruct Hy as [a b].
+        apply fold_write_fired.
+        -- apply targets_complete.
+           ++ eapply sorted_ext; [|apply (s_sorted _ C)]. intros; rewrite G1; repeat split.
+           ++ rewrite T1; auto.
+           ++ rewrite G1; auto.
+        -- change (y < length (hs s)). apply signum_valid; congruence.
+    + assert (EdF : disp_of sF sig = Handler false) by (rewrite dF; unfold s1; auto).
+      split; rewrite EdF; auto; try discriminate.
+      intros H. exfalso. rewrite A in Ed; [discriminate|]. intros y Hy. apply (H y). apply En; auto.
+  - assert (EdF : disp_of sF sig' = disp_of s sig').
+    { rewrite dF. unfold s1. destruct rh; auto. ssimpl. unfold fupd.
+      destruct (Nat.eqb_spec sig' sig); [contradiction|reflexivity]. }
+    split; rewrite EdF.
+    + intros H. apply A. intros y Hy. apply (H y). apply En; auto.
+    + intros y Hy Hf. apply En in Hy. rewrite Fl in Hf. eauto.
+    + intros Hd Hr y Hy. apply En in Hy. rewrite Rc in Hr. apply Fm. eauto.
+Qed.
+
+Definition PD (_ : ctx) (s : state) : Prop := SInv s /\ DInv s.
+
+Lemma dinv_same s s' :
+  tree s' = tree s -> disp_of s' = disp_of s -> race s' = race s ->
+  (forall y, In y (tree s) -> h_signum (get s' y) = h_signum (get s y) /\
+                               h_oneshot (get s' y) = h_oneshot (get s y) /\
+                               g_fired (get s' y) = g_fired (get s y)) ->
+  DInv s -> DInv s'.
+Proof.
+  intros Et Ed Er F. apply dinv_frame; auto; try congruence.
+  intros y Hy. destruct (F y Hy) as (a&b&c). rewrite c. auto.
+Qed.
+
+Lemma dinv_hs_eq s s' : hs s' = hs s -> tree s' = tree s -> disp_of s' = disp_of s -> race s' = race s ->
+  DInv s -> DInv s'.
+Proof.
+  intros Eh Et Ed Er. apply dinv_same; auto. intros y _. rewrite (get_hs_eq s s') by auto. auto.
+Qed.
+
+Lemma dinv_upd s h f :
+  (forall x, h_signum (f x) = h_signum x /\ h_oneshot (f x) = h_oneshot x /\ g_fired (f x) = g_fired x) ->
+  DInv s -> DInv (upd_h s h f).
+Proof.
+  intros F. apply dinv_same; try reflexivity. intros y _.
+  destruct (Nat.eq_dec h y) as [->|].
+  - destruct (Nat.lt_ge_cases y (length (hs s))); [rewrite get_upd_same by auto; apply F | rewrite upd_h_oob by auto; auto].
+  - rewrite get_upd_other by auto; auto.
+Qed.
+
+Lemma dinv_log s e : DInv s -> DInv (log s e).
+Proof. apply dinv_hs_eq; reflexivity. Qed.
+
+Ltac deq D := (eapply dinv_hs_eq; [| | | |exact D]; reflexivity).
+
+Lemma pd_api fx c s o : PD c s -> PD c (api_snap fx s o).
+Proof.
+  intros [I D]. split; [apply sinv_api; auto|].
+  unfold api_snap. eapply dinv_hs_eq with (s := api fx s o); try reflexivity.
+  destruct I as [C K]. destruct o; simpl.
+  - apply dinv_log. eapply dinv_same with (s := s); try reflexivity; auto.
+    intros y Hy. gs. rewrite get_app_old; auto. apply signum_valid. apply (s_tree _ C). auto.
+  - destruct (usable s h) eqn:U; [|apply dinv_log; auto].
+    pose proof (dinv_start fx s h sig false U C D) as X.
+    destruct (sig_start fx s h sig false). apply dinv_log; auto.
+  - destruct (usable s h) eqn:U; [|apply dinv_log; auto].
+    pose proof (dinv_start fx s h sig true U C D) as X.
+    destruct (sig_start fx s h sig true). apply dinv_log; auto.
+  - destruct (usable s h); apply dinv_log; auto using dinv_stop.
+  - destruct (usable s h); apply dinv_log; auto.
+    unfold sig_close. eapply dinv_hs_eq with (s := sig_stop (upd_h s h h_set_closing) h); try reflexivity.
+    apply dinv_stop.
+    + apply score_upd_acc; auto. intros; repeat split; auto.
+    + apply dinv_upd; auto.
+  - destruct (Nat.eqb_spec sig 0); [apply dinv_log; auto|].
+    pose proof (dinv_deliver s sig n C D) as X.
+    destruct (deliver s sig). apply dinv_log; auto.
+  - apply dinv_log; auto.
+Qed.
+
+Lemma pd_finish c s h sig r : PD c s -> batch s = (h, sig) :: r -> PD c (msg_finish s h r).
+Proof.
+  intros [I D] Hb. split; [eapply sinv_finish; eauto|].
+  unfold msg_finish. pose proof (sinv_pop s h sig r I Hb) as [C2 K2].
+  assert (D2 : DInv (upd_h (with_batch s r) h h_inc_dispatched)).
+  { apply dinv_upd; [intros; repeat split|]. deq D. }
+  destruct (h_oneshot _); auto. apply dinv_stop; auto.
+Qed.
+
+Theorem pd_run fx beh fuel c ops : PD CTop (run fx beh fuel (init c) ops).
+Proof.
+  apply (rule_run fx beh PD) with (Rq := fun s h => h_closing (get s h) = true).
+  - intros; apply pd_api; auto.
+  - intros s l [I D]. split; [apply sinv_log; auto | apply dinv_log; auto].
+  - intros s l [I D] Hb. split; [apply sinv_take; auto | deq D].
+  - intros s h sig r [I D] _ _. split; [apply sinv_cb_enter; auto | deq D].
+  - intros s h sig r [I D] Hb. eapply pd_finish with (c := CMid) (sig := sig); [|exact Hb].
+    split; [apply sinv_log; auto | apply dinv_log; auto].
+  - intros s h sig r P Hb _. eapply pd_finish; eauto.
+  - intros s l h [[C K] D] Hh. eapply (s_clq _ C); eauto.
+  - auto.
+  - intros s h' h Hc. gs. destruct (Nat.eq_dec h' h) as [->|Hn].
+    + destruct (Nat.lt_ge_cases h (length (hs s))).
+      * rewrite get_upd_same by auto. auto.
+      * rewrite upd_h_oob by auto. auto.
+    + rewrite get_upd_other by auto. auto.
+  - intros s l [I D]. split; [apply sinv_clq_nil; auto | deq D].
+  - intros s l h [I D] R. split; [apply sinv_requeue; auto | deq D].
+  - intros s h [I D] R Hd. split; [apply sinv_closed; auto|].
+    apply dinv_log. apply dinv_upd; auto.
+  - intros s l [I D]. split; [apply sinv_snap, sinv_log; auto | deq D].
+  - split; [apply sinv_init0|]. intros sig _. split; simpl; auto.
+    + intros y [[] _].
+    + intros _ _ y [[] _].
+  - reflexivity.
+Qed.
+
+(* ------------------------------------------------------------------ *)
+(* 8. disposition theorems                                              *)
+(* ------------------------------------------------------------------ *)
+Definition is_handler (d : disp) : bool := match d with Handler _ => true | Default => false end.
+
+(* "watches": in the tree for that signal and not a one-shot watcher whose
+   signal the kernel has already seen (DESIGN.md, C13) *)
+Definition watches (s : state) (h sig : nat) : Prop :=
+  entry s sig h /\ ~ (h_oneshot (get s h) = true /\ g_fired (get s h) = true).
+
+Theorem disposition_partial fx beh fuel c ops sig :
+  sig <> 0 ->
+  let s := run fx beh fuel (init c) ops in
+  ((forall h, ~ entry s sig h) -> disp_of s sig = Default) /\
+  (forall h, entry s sig h -> h_oneshot (get s h) = false -> disp_of s sig = Handler false) /\
+  (is_handler (disp_of s sig) = true -> exists h, entry s sig h) /\
+  (race s = false -> (exists h, watches s h sig) -> is_handler (disp_of s sig) = true).
+Proof.
+  intros Hs. cbv zeta. destruct (pd_run fx beh fuel c ops) as [_ D].
+  destruct (D sig Hs) as [A B C]. repeat split; auto.
+  - intros Hh.
+    destruct (existsb (fun y => h_signum (get (run fx beh fuel (init c) ops) y) =? sig)
+                (tree (run fx beh fuel (init c) ops))) eqn:E.
+    + apply existsb_exists in E. destruct E as (y&a&b). apply Nat.eqb_eq in b. exists y. split; auto.
+    + rewrite A in Hh; [discriminate|]. intros y [a b].
+      assert (X : existsb (fun y => h_signum (get (run fx beh fuel (init c) ops) y) =? sig)
+                    (tree (run fx beh fuel (init c) ops)) = true); [|congruence].
+      apply existsb_exists. exists y. split; auto. apply Nat.eqb_eq; auto.
+  - intros Hr (h&He&Hn).
+    destruct (h_oneshot (get (run fx beh fuel (init c) ops) h)) eqn:Ef.
+    + destruct (disp_of (run fx beh fuel (init c) ops) sig) eqn:Ed; [|reflexivity].
+      exfalso. apply Hn. split; auto.
+    + rewrite (B h He Ef). reflexivity.
+Qed.
+
+(* the full clause, as the property states it, does not hold: the SA_RESETHAND window *)
+Definition disposition_iff_watched_statement (fx : bool) : Prop :=
+  forall beh fuel c ops sig, sig <> 0 ->
+  let s := run fx beh fuel (init c) ops in
+  is_handler (disp_of s sig) = true <-> exists h, watches s h sig.
+
+Definition race_ops : list op :=
+  [OInit 0; OInit 0; OStartOneshot 0 10; ORaise 10; OStartOneshot 1 10].
+
+Theorem resethand_race_refuted : forall fx, ~ disposition_iff_watched_statement fx.
+Proof.
+  intros fx H. specialize (H (fun _ => []) 0 16 race_ops 10).
+  assert (N : 10 <> 0) by discriminate. specialize (H N). cbv zeta in H.
+  destruct H as [_ H].
+  assert (W : exists h, watches (run fx (fun _ => []) 0 (init 16) race_ops) h 10).
+  { exists 1. destruct fx; split; vm_compute; intuition; try discriminate. }
+  specialize (H W). destruct fx; vm_compute in H; discriminate.
+Qed.
+
+(* ------------------------------------------------------------------ *)
+(* 9. restarting a handle                                               *)
+(* ------------------------------------------------------------------ *)
+Definition fresh_like (x : handle) (sig : nat) (os : bool) : Prop :=
+  h_signum x = sig /\ h_oneshot x = os /\ h_caught x = h_dispatched x /\ h_active x = true.
+
+(* "starting it again behaves like a fresh handle": what a start on a freshly
+   initialised handle gives, it gives on any stopped handle *)
+Definition restart_fresh_statement (fx : bool) : Prop :=
+  forall beh fuel c ops h sig os,
+  let s := run fx beh fuel (init c) ops in
+  usable s h = true -> h_signum (get s h) = 0 -> sig <> 0 -> sigok sig = true ->
+  fresh_like (get (fst (sig_start fx s h sig os)) h) sig os.
+
+Lemma start_fresh_handle fx s l sig os : sig <> 0 -> sigok sig = true ->
+  let s0 := with_hs s (hs s ++ [new_handle l]) in
+  fresh_like (get (fst (sig_start fx s0 (length (hs s)) sig os)) (length (hs s))) sig os.
+Proof.
+  intros Hs Ho. cbv zeta.
+  set (s0 := with_hs s (hs s ++ [new_handle l])). set (h := length (hs s)).
+  assert (G : get s0 h = new_handle l) by apply get_app_new.
+  assert (Hl : h < length (hs s0)) by (unfold s0, h; ssimpl; rewrite app_length; simpl; lia).
+  destruct (start_spec fx s0 h sig os) as [S0 S1 S2|S0 S1 S2 S3|S0 S1 S2 S3 S4|S0 S1 S2 S3 S4 S5 S6 S7 S8 S9].
+  - congruence.
+  - rewrite G in S1. simpl in S1. congruence.
+  - congruence.
+  - rewrite S5 by auto. rewrite G. unfold fresh_like. simpl. destruct fx, os; auto.
+Qed.
+
+Theorem restart_fresh_partial fx s h sig os :
+  usable s h = true -> sig <> 0 -> sig <> h_signum (get s h) -> sigok sig = true ->
+  let x := get s h in
+  let y := get (fst (sig_start fx s h sig os)) h in
+  snd (sig_start fx s h sig os) = 0%Z /\
+  h_signum y = sig /\ h_active y = true /\ h_caught y = h_caught x /\ h_dispatched y = h_dispatched x /\
+  h_oneshot y = (if fx then os else h_oneshot x || os) /\
+  ((fx = true \/ h_oneshot x = false \/ os = true) -> h_caught x = h_dispatched x -> fresh_like y sig os).
+Proof.
+  intros U Hs Hn Ho. cbv zeta. apply usable_spec in U. destruct U as [Ul Uc].
+  destruct (start_spec fx s h sig os) as [S0 S1 S2|S0 S1 S2 S3|S0 S1 S2 S3 S4|S0 S1 S2 S3 S4 S5 S6 S7 S8 S9];
+    try congruence.
+  rewrite S5 by auto. rewrite S2. simpl. do 6 (split; [reflexivity|]).
+  intros Hf He. unfold fresh_like. simpl. split; [reflexivity|]. split; [|split; [exact He|reflexivity]].
+  destruct Hf as [-> | [Hf | ->]]; auto.
+  - rewrite Hf. destruct fx; reflexivity.
+  - destruct fx; auto. apply orb_true_r.
+Qed.
+
+(* with notes/C13_fix_oneshot_flag.diff applied the clause holds for every stopped
+   handle that has no earlier signal waiting in the pipe *)
+Theorem restart_fresh_fixed s h sig os :
+  usable s h = true -> h_signum (get s h) = 0 -> sig <> 0 -> sigok sig = true ->
+  h_caught (get s h) = h_dispatched (get s h) ->
+  fresh_like (get (fst (sig_start true s h sig os)) h) sig os.
+Proof.
+  intros U E0 Hs Ho He.
+  destruct (restart_fresh_partial true s h sig os U Hs) as (_&_&_&_&_&_&F); auto. congruence.
+Qed.
+
+Definition sticky_ops : list op :=
+  [OInit 0; OStartOneshot 0 10; ORaise 10; ORun 0].
+
+(* item 3: one-shot use, then uv_signal_start: the stale flag stays *)
+Theorem oneshot_flag_sticks_refuted : ~ restart_fresh_statement false.
+Proof.
+  intros H. specialize (H (fun _ => []) 8 16 sticky_ops 0 10 false). cbv zeta in H.
+  assert (F : fresh_like (get (fst (sig_start false (run false (fun _ => []) 8 (init 16) sticky_ops) 0 10 false)) 0) 10 false).
+  { apply H; vm_compute; auto; discriminate. }
+  destruct F as (_&F&_). vm_compute in F. discriminate.
+Qed.
+
+(* ... and what that means for the program: started persistently, never stopped by the
+   program, yet after one signal the handle is inactive and the disposition is the default *)
+Theorem oneshot_flag_sticks_behaviour :
+  let s := run false (fun _ => []) 8 (init 16)
+             (sticky_ops ++ [OStart 0 10; ORaise 10; ORun 0]) in
+  h_active (get s 0) = false /\ disp_of s 10 = Default /\
+  count_cb 0 (tr s) = 2 /\ mode_of (tr s) 0 = MIdle.
+Proof. vm_compute. repeat split. Qed.
+
+(* the repaired variant keeps watching *)
+Theorem oneshot_flag_fixed_behaviour :
+  let s := run true (fun _ => []) 8 (init 16)
+             (sticky_ops ++ [OStart 0 10; ORaise 10; ORun 0]) in
+  h_active (get s 0) = true /\ disp_of s 10 = Handler false /\ h_oneshot (get s 0) = false.
+Proof. vm_compute. repeat split. Qed.
+
+(* item 14 and its one-shot variant: a signal caught before stop + start is still in the
+   pipe, so the restarted handle is not fresh (both variants) *)
+Theorem stale_signal_refuted : forall fx, ~ restart_fresh_statement fx.
+Proof.
+  intros fx H. specialize (H (fun _ => []) 8 16 [OInit 0; OStart 0 10; ORaise 10; OStop 0] 0 10 false).
+  cbv zeta in H.
+  assert (F : fresh_like (get (fst (sig_start fx (run fx (fun _ => []) 8 (init 16) [OInit 0; OStart 0 10; ORaise 10; OStop 0]) 0 10 false)) 0) 10 false).
+  { apply H; destruct fx; vm_compute; auto; discriminate. }
+  destruct F as (_&_&F&_). destruct fx; vm_compute in F; discriminate.
+Qed.
+
+(* a one-shot handle restarted on another signal while an earlier signal is still in the
+   pipe is stopped by that message without ever getting a callback *)
+Theorem oneshot_stopped_without_callback :
+  forall fx,
+  let s := run fx (fun _ => []) 8 (init 16)
+             [OInit 0; OStartOneshot 0 10; ORaise 10; OStartOneshot 0 12; ORun 0] in
+  h_active (get s 0) = false /\ count_cb 0 (tr s) = 0 /\ disp_of s 12 = Default.
+Proof. intros fx; destruct fx; vm_compute; repeat split. Qed.
+
+(* ------------------------------------------------------------------ *)
+(* 10. every watcher once: delivery and dispatch, step by step          *)
+(* ------------------------------------------------------------------ *)
+Lemma write_msg_pending sig s y : y < length (hs s) ->
+  length (pipe_of s (h_loop (get s y))) < cap s ->
+  forall x, pending (write_msg sig s y) x = pending s x + (if x =? y then 1 else 0).
+Proof.
+  intros Hl Hc x. unfold write_msg.
+  set (s1 := upd_h s y h_set_fired).
+  assert (G1 : forall z, h_loop (get s1 z) = h_loop (get s z)).
+  { intros z. unfold s1. destruct (Nat.eq_dec y z) as [->|]; [rewrite get_upd_same by auto; reflexivity | rewrite get_upd_other by auto; reflexivity]. }
+  change (h_loop (get s y)) with (h_loop (h_set_fired (get s y))).
+  replace (h_set_fired (get s y)) with (get s1 y) by (unfold s1; apply get_upd_same; auto).
+  change (pipe_of s1) with (pipe_of s). change (cap s1) with (cap s). rewrite G1.
+  apply Nat.ltb_lt in Hc. rewrite Hc.
+  set (l := h_loop (get s y)).
+  set (s2 := set_pipe s1 l (pipe_of s l ++ [(y, sig)])).
+  assert (G2 : forall z, h_loop (get (upd_h s2 y h_inc_caught) z) = h_loop (get s z)).
+  { intros z. rewrite <- G1. destruct (Nat.eq_dec y z) as [->|].
+    - rewrite get_upd_same by (change (hs s2) with (hs s1); unfold s1; rewrite len_upd_h; auto). reflexivity.
+    - rewrite get_upd_other by auto. reflexivity. }
+  unfold pending. rewrite G2.
+  change (batch (upd_h s2 y h_inc_caught)) with (batch s).
+  change (pipe_of (upd_h s2 y h_inc_caught)) with (fupd (pipe_of s) l (pipe_of s l ++ [(y, sig)])).
+  unfold fupd. destruct (Nat.eqb_spec (h_loop (get s x)) l) as [El|El].
+  - rewrite El, cnt_app. simpl. rewrite (Nat.eqb_sym y x). lia.
+  - destruct (Nat.eqb_spec x y) as [->|]; [exfalso; apply El; reflexivity | lia].
+Qed.
+
+Lemma write_msg_pipe_len sig s y l :
+  length (pipe_of (write_msg sig s y) l) <= S (length (pipe_of s l)).
+Proof.
+  unfold write_msg. destruct (_ <? _); ssimpl; auto. unfold fupd.
+  destruct (l =? _) eqn:E; auto. apply Nat.eqb_eq in E. subst. rewrite app_length. simpl. gs. lia.
+Qed.
+
+Lemma fold_write_pending sig ys : forall s, NoDup ys -> (forall y, In y ys -> y < length (hs s)) ->
+  (forall l, length (pipe_of s l) + length ys <= cap s) ->
+  forall x, pending (fold_left (write_msg sig) ys s) x = pending s x + (if existsb (Nat.eqb x) ys then 1 else 0).
+Proof.
+  induction ys as [|y ys IH]; intros s Nd Hv Hc x; simpl; [lia|].
+  inversion Nd as [|? ? Ny Nd']; subst.
+  rewrite IH; auto.
+  - rewrite write_msg_pending.
+    + destruct (Nat.eqb_spec x y) as [->|Hn]; simpl; [|lia].
+      destruct (existsb (Nat.eqb y) ys) eqn:E; [|lia].
+      apply existsb_exists in E. destruct E as (z&a&b). apply Nat.eqb_eq in b. subst. contradiction.
+    + apply Hv; simpl; auto.
+    + specialize (Hc (h_loop (get s y))). simpl in Hc. lia.
+  - intros z Hz. rewrite write_msg_len. apply Hv; simpl; auto.
+  - intros l. destruct (write_msg_misc sig s y) as (_&_&_&_&c&_). rewrite c.
+    pose proof (write_msg_pipe_len sig s y l). specialize (Hc l). simpl in Hc. lia.
+Qed.
+
+Lemma targets_hs_eq s s' sig : hs s' = hs s -> tree s' = tree s -> targets s' sig = targets s sig.
+Proof.
+  intros Eh Et. unfold targets. rewrite Et.
+  assert (G : forall y, get s' y = get s y) by (intros; apply get_hs_eq; auto).
+  assert (W : forall t, walk s' sig t = walk s sig t).
+  { induction t as [|y t IH]; simpl; auto. rewrite G, IH. reflexivity. }
+  assert (D : forall t, drop_below s' sig t = drop_below s sig t).
+  { induction t as [|y t IH]; simpl; auto. rewrite G, IH. reflexivity. }
+  rewrite D, W. reflexivity.
+Qed.
+
+(* one delivery while the handler is installed: exactly one message for every handle that
+   is in the tree for that signal, none for any other handle (pipe capacity as hypothesis) *)
+Theorem deliver_one_message_each fx beh fuel c ops sig rh :
+  let s := run fx beh fuel (init c) ops in
+  sig <> 0 -> disp_of s sig = Handler rh ->
+  (forall l, length (pipe_of s l) + length (targets s sig) <= cap s) ->
+  forall h, pending (fst (deliver s sig)) h =
+            pending s h + (if existsb (Nat.eqb h) (filter (fun y => h_signum (get s y) =? sig) (tree s)) then 1 else 0).
+Proof.
+  cbv zeta. intros Hs Hd Hc h. destruct (sinv_run fx beh fuel c ops) as [C K].
+  set (s := run fx beh fuel (init c) ops) in *.
+  unfold deliver. rewrite Hd. cbn [fst]. unfold handler.
+  set (s1 := if rh then set_disp s sig Default else s).
+  assert (E1 : targets s1 sig = targets s sig) by (apply targets_hs_eq; unfold s1; destruct rh; reflexivity).
+  assert (P1 : pending s1 h = pending s h) by (unfold s1; destruct rh; reflexivity).
+  rewrite E1. rewrite fold_write_pending.
+  - rewrite P1. f_equal.
+    assert (X : existsb (Nat.eqb h) (targets s sig) = existsb (Nat.eqb h) (filter (fun y => h_signum (get s y) =? sig) (tree s))); [|rewrite X; reflexivity].
+    apply eq_true_iff_eq. rewrite !existsb_exists. split; intros (y&a&b); exists y; split; auto.
+    + apply targets_in in a. apply filter_In. destruct a as [a1 a2]. rewrite a2, Nat.eqb_refl. auto.
+    + apply filter_In in a. destruct a as [a1 a2]. apply Nat.eqb_eq in a2.
+      apply targets_complete; auto. apply (s_sorted _ C).
+  - apply sorted_sub_nodup. apply (s_sorted _ C).
+  - intros y Hy. apply targets_in in Hy. destruct Hy as [a b].
+    assert (y < length (hs s)) by (apply signum_valid; congruence).
+    unfold s1. destruct rh; auto.
+  - intros l. specialize (Hc l). unfold s1. destruct rh; auto.
+Qed.
+
+(* nothing but uv__signal_event makes a signal callback *)
+Lemma api_tr fx s o : exists e, tr (api fx s o) = e :: tr s /\ forall h sg, e <> ECb h sg.
+Proof.
+  destruct o; cbn [api].
+  - eexists; split; [reflexivity|discriminate].
+  - destruct (usable s h); [|eexists; split; [reflexivity|discriminate]].
+    pose proof (start_spec fx s h sig false) as S. destruct (sig_start fx s h sig false) as [s1 r].
+    simpl in S. exists (EOp (OStart h sig) r). split; [|discriminate]. cbn [log tr with_tr]. f_equal.
+    destruct S; subst; rewrite ?stop_tr; auto.
+  - destruct (usable s h); [|eexists; split; [reflexivity|discriminate]].
+    pose proof (start_spec fx s h sig true) as S. destruct (sig_start fx s h sig true) as [s1 r].
+    simpl in S. exists (EOp (OStartOneshot h sig) r). split; [|discriminate]. cbn [log tr with_tr]. f_equal.
+    destruct S; subst; rewrite ?stop_tr; auto.
+  - destruct (usable s h); [exists (EOp (OStop h) 0%Z) | exists (ESkip (OStop h))];
+      (split; [|discriminate]); cbn [log tr with_tr]; rewrite ?stop_tr; reflexivity.
+  - destruct (usable s h); [exists (EOp (OClose h) 0%Z) | exists (ESkip (OClose h))];
+      (split; [|discriminate]); cbn [log tr with_tr]; [|reflexivity].
+    destruct (close_misc s h) as (_&e&_). rewrite e. reflexivity.
+  - destruct (sig =? 0); [eexists; split; [reflexivity|discriminate]|].
+    pose proof (deliver_misc s sig) as D. destruct (deliver s sig) as [s1 r]. simpl in D.
+    destruct D as (_&e&_). exists (EOp (ORaise sig) r). split; [|discriminate]. cbn [log tr with_tr]. rewrite e. reflexivity.
+  - eexists; split; [reflexivity|discriminate].
+Qed.
+
+Lemma api_no_cb fx s o h : count_cb h (tr (api_snap fx s o)) = count_cb h (tr s).
+Proof.
+  unfold api_snap. destruct (api_tr fx s o) as (e&E&N).
+  cbn [snap log tr with_tr]. rewrite E. cbn [count_cb].
+  destruct e; try reflexivity. exfalso. eapply N. reflexivity.
+Qed.
+
+Lemma script_no_cb fx os : forall s h, count_cb h (tr (script fx s os)) = count_cb h (tr s).
+Proof.
+  induction os as [|o os IH]; intros; simpl; auto. rewrite IH. apply api_no_cb.
+Qed.
+
+(* handling one message: exactly one callback, on that handle, iff the handle still watches the
+   message's signal (i.e. was not stopped before the dispatch); the message is consumed *)
+Theorem dispatch_one_callback fx beh s h sig r h' :
+  count_cb h' (tr (process_msg fx beh s (h, sig) r)) =
+  count_cb h' (tr s) + (if (sig =? h_signum (get s h)) && (h =? h') then 1 else 0) /\
+  batch (process_msg fx beh s (h, sig) r) = r.
+Proof.
+  unfold process_msg. cbn [fst snd].
+  destruct (sig =? h_signum (get s h)).
+  - split; [|apply msg_finish_batch].
+    destruct (finish_spec (log (script fx (cb_enter s h sig) (beh (cbcount s))) (ECbEnd h)) h r) as (_&_&_&_&e&_).
+    cbv zeta in e. rewrite e. simpl. rewrite script_no_cb. unfold cb_enter. ssimpl. simpl.
+    destruct (h =? h'); lia.
+  - split; [|apply msg_finish_batch].
+    destruct (finish_spec s h r) as (_&_&_&_&e&_). cbv zeta in e. rewrite e. simpl. lia.
 Qed.
